@@ -11,7 +11,18 @@ use serde_json::{json, Value};
 use std::collections::BTreeMap;
 use vcore::{Ctx, Outcome};
 
+/// the 19 op kinds plus three row-level ops whose row set is a whole fragment plus part of
+/// another one (the transaction drops fragment X and rewrites only Y's deletion vector)
 pub fn alphabet(pos: usize) -> Vec<Op> {
+    let tag = 100 * (pos as i32 + 1);
+    let mut v = base_alphabet(pos);
+    v.push(Op::Delete { s: vec![0, 1, 2, 3] });
+    v.push(Op::Update { s: vec![2, 3, 4, 5], tag });
+    v.push(Op::Merge { s: vec![0, 1, 2, 3], tag, partial: false, insert: false });
+    v
+}
+
+pub fn base_alphabet(pos: usize) -> Vec<Op> {
     let p = pos as i32;
     let tag = 100 * (p + 1);
     vec![
@@ -39,7 +50,7 @@ pub fn alphabet(pos: usize) -> Vec<Op> {
 
 /// the 10 data-touching ops used for triples
 pub fn data_alphabet(pos: usize) -> Vec<Op> {
-    let all = alphabet(pos);
+    let all = base_alphabet(pos);
     all.into_iter()
         .filter(|o| {
             matches!(
@@ -60,7 +71,7 @@ pub fn data_alphabet(pos: usize) -> Vec<Op> {
 fn doc_class(kind: &str) -> Option<&'static str> {
     Some(match kind {
         "append" => "Append",
-        "delete" | "update" | "upsert_full" | "merge_partial" => "Delete/Update",
+        "delete" | "update" | "upsert_full" | "merge_update_full" | "merge_partial" => "Delete/Update",
         "overwrite" => "Overwrite",
         "create_index_v" | "optimize_indices" => "CreateIndex",
         "compact" | "compact_defer" => "Rewrite",
@@ -109,7 +120,7 @@ pub fn run(ctx: &Ctx) -> Outcome {
         replay(&bases, &art, Prop::C03, &mut out);
         return out;
     }
-    let wall_cap = ctx.tier.pick(40.0, 840.0);
+    let wall_cap = ctx.tier.pick(55.0, 840.0);
     let layouts: Vec<&str> = if quick { vec!["L2"] } else { vec!["L2", "L3"] };
     let mut cfgs = vec![];
     for l in &layouts {
@@ -121,8 +132,36 @@ pub fn run(ctx: &Ctx) -> Outcome {
     }
     let mut hists: Vec<Hist> = vec![];
     for cfg in &cfgs {
+        // default retries only change the outcome of ops the API re-executes; quick runs that
+        // column of the matrix on address ids only (thorough: everything)
+        let reduced = quick && cfg.retries.is_none();
+        if reduced && cfg.stable {
+            continue;
+        }
+        // quick, stable row ids: the cells between data-touching ops (row ids do not matter for
+        // metadata-only transactions)
+        let data_only = quick && cfg.stable;
+        let is_data = |o: &Op| {
+            matches!(
+                o,
+                Op::Append { .. }
+                    | Op::Delete { .. }
+                    | Op::Update { .. }
+                    | Op::Merge { .. }
+                    | Op::Compact { .. }
+                    | Op::Overwrite { .. }
+                    | Op::Restore
+                    | Op::DataRepl { .. }
+            )
+        };
         for a in alphabet(0) {
             for b in alphabet(1) {
+                if reduced && !b.reexecutes() {
+                    continue;
+                }
+                if data_only && !(is_data(&a) && is_data(&b)) {
+                    continue;
+                }
                 hists.push(Hist { cfg: cfg.clone(), steps: vec![(0, a.clone()), (1, b.clone())] });
             }
         }
@@ -210,9 +249,9 @@ pub fn run(ctx: &Ctx) -> Outcome {
     out.set(
         "bound_completed",
         if quick {
-            "all ordered pairs over the 19-op alphabet on L2+k_idx x {stable ids on/off} x {retries 0, default}"
+            "all ordered pairs over the 22-op alphabet (19 kinds + 3 whole-fragment-plus-part row sets) on L2+k_idx x address ids x retries 0; the 13 x 13 cells between data-touching ops also with stable row ids; with default retries every pair whose second op is re-executed by the API (7 ops), address ids"
         } else {
-            "all ordered pairs over the 19-op alphabet on {L2,L3}+k_idx; all triples and all forked (a; refresh h1; b on h0; c on h1) histories over the 10 data-touching ops on L2; x {stable ids on/off} x {retries 0, default}"
+            "all ordered pairs over the 22-op alphabet (19 kinds + 3 whole-fragment-plus-part row sets) on {L2,L3}+k_idx; all triples and all forked (a; refresh h1; b on h0; c on h1) histories over the 10 data-touching ops on L2; x {stable ids on/off} x {retries 0, default}"
         },
     );
     out.assume("every handle reads the base version unless refreshed; restore reads the latest version by construction of the API");
